@@ -217,7 +217,8 @@ class ParsedCommand(object):
         # locals so we import it manually to avoid any issues.
         import numpy as np  # noqa
         if data is not None and np.isscalar(result):
-            result = np.ones(data.shape) * result
+            from glue.utils import view_shape
+            result = np.ones(view_shape(data.shape, view)) * result
 
         return result
 
